@@ -44,8 +44,14 @@ def split_histories(path):
     return hist
 
 
-def evaluate(c, mo, hist, exe_name):
-    """shared by C07 and C08: compares implementation / model / spec per line. Returns stats dict."""
+def p_lines(mo):
+    return {(f[1], f[2]): f[5] for f in (l.split("\t") for l in mo.splitlines()) if f[0] == "P" and len(f) > 5}
+
+
+def evaluate(c, mo, hist, exe_name, alt_order=None):
+    """shared by C07 and C08: compares implementation / model / spec per line. Returns stats dict.
+    alt_order: P results of the model variant in which Rollback is sensitive to the order of a block
+    record (the code before that repair); used only to NAME a mismatch of that shape."""
     st = dict(nq=0, nquiet=0, nproc=0, nsteps=0, nz=0, died=0, distinct=set())
     bad = {}
 
@@ -70,7 +76,11 @@ def evaluate(c, mo, hist, exe_name):
                 st["died"] += 1
                 flag(h, "handler-died:model-%s" % mod, "the process died (%s) while the handler processed the announcement of block %s queued between two worker steps; model says %s" % (impl, f[3], mod))
             elif impl != mod:
-                flag(h, "model:process", "announcement of block %s: implementation %s, model %s" % (f[3], impl, mod))
+                if alt_order and alt_order.get((f[1], f[2])) == impl:
+                    flag(h, "rollback:block-record-order", "announcement of block %s refused (model of the repaired code accepts it): a rescan appended the creator of an in-block coin "
+                         "AFTER its spender in the block record; Rollback walks the record backwards and fails with 'unexpected unspend non-existence credit'" % f[3])
+                else:
+                    flag(h, "model:process", "announcement of block %s: implementation %s, model %s" % (f[3], impl, mod))
         elif t == "Q":
             st["nq"] += 1
             _, _, k, w, quiet, im, mod, spec = f
@@ -174,7 +184,8 @@ def main(tier, replay=None):
     if rc != 0:
         return c.finish(TRUSTED, no_input_break="model driver failed: " + me[-1500:])
     hist = split_histories(impl)
-    st, bad = evaluate(c, mo, hist, exe)
+    rc, mord, me = V.sh("%s %d %d order < %s" % (exe, batch, cap, impl), timeout=3000)
+    st, bad = evaluate(c, mo, hist, exe, p_lines(mord) if rc == 0 else None)
 
     # the witnesses of the _refuted theorems, replayed on the model of the code AS FOUND: the directed
     # scenarios must show the three defects there (spec mismatch / panic / residue)
